@@ -183,8 +183,9 @@ Allowed ==
          ELSE IF Len(order) = 1 THEN {Mod1(order[1] + 1), Mod1(order[1] - 1)} \cap Remaining
          ELSE {Mod1(order[Len(order)] + (IF Mod1(order[1] + 1) = order[2] THEN 1 ELSE N - 1))} \cap Remaining
     ELSE IF OrderMode = "one" THEN (IF Remaining = {} THEN {} ELSE {CHOOSE i \in Remaining : \A j \in Remaining : i <= j})
-    ELSE \* "two": ascending, descending, or rotated by one (a forward reference across the cut)
-         IF order = <<>> THEN {1, N, 2} \cap Remaining
+    ELSE \* "two": ascending, descending, or rotated by one (a forward reference across the cut);
+         \* "files": ascending or descending, one split, both file orders (what matters between namespaces)
+         IF order = <<>> THEN (IF OrderMode = "files" THEN {1, N} ELSE {1, N, 2}) \cap Remaining
          ELSE IF order[1] = 1 THEN {order[Len(order)] + 1} \cap Remaining
          ELSE IF order[1] = N THEN {order[Len(order)] - 1} \cap Remaining
          ELSE {IF order[Len(order)] = N THEN 1 ELSE order[Len(order)] + 1} \cap Remaining
@@ -192,7 +193,7 @@ WriteDef == /\ phase = "writing" /\ Remaining # {}
             /\ \E i \in Allowed : order' = Append(order, i)
             /\ UNCHANGED <<inst, phase, model>>
 Finish == /\ phase = "writing" /\ Remaining = {}
-          /\ \E cut \in (IF OrderMode = "one" THEN {1} ELSE {0, 1, 2}),
+          /\ \E cut \in (IF OrderMode \in {"one", "files"} THEN {1} ELSE {0, 1, 2}),
                 frev \in (IF OrderMode = "one" THEN {FALSE} ELSE BOOLEAN) :
                 model' = Build(InstSeq[inst], order, cut, frev)
           /\ phase' = "done"
